@@ -504,6 +504,21 @@ func (p *queryPlan) addSpecifiedData(ctx context.Context, r table.Row, cls *sema
 		}
 	})
 
+	if extractsNothing(cls) {
+		// Constants and predicates bounded by the row only: the clause has nothing
+		// to add to the row, it only has to hold for it.
+		probe := *cls
+		probe.SAlias = "?__exists"
+		tbl, err := simpleFetch(ctx, p.grfs, &probe, lo, 0, p.chanSize, p.tracer)
+		if err != nil {
+			return err
+		}
+		if tbl.NumRows() > 0 || cls.Optional {
+			p.tbl.AddRow(r)
+		}
+		return nil
+	}
+
 	stmLimit := int64(0)
 	if p.canPushLimitDown(cls) {
 		stmLimit = p.stm.Limit()
@@ -537,6 +552,21 @@ func (p *queryPlan) addSpecifiedData(ctx context.Context, r table.Row, cls *sema
 		p.tbl.AddRow(table.MergeRows([]table.Row{r, nr}))
 	}
 	return nil
+}
+
+// extractsNothing returns true if the clause takes no value out of a triple it
+// matches: it has no binding or alias other than predicate or object bounds.
+func extractsNothing(cls *semantic.GraphClause) bool {
+	for _, b := range []string{
+		cls.SBinding, cls.SAlias, cls.STypeAlias, cls.SIDAlias,
+		cls.PBinding, cls.PAlias, cls.PIDAlias, cls.PAnchorBinding, cls.PAnchorAlias,
+		cls.OBinding, cls.OAlias, cls.OTypeAlias, cls.OIDAlias, cls.OAnchorBinding, cls.OAnchorAlias,
+	} {
+		if b != "" {
+			return false
+		}
+	}
+	return true
 }
 
 // sameCell returns true if both cells hold the same value: the same kind and
